@@ -10,7 +10,7 @@ extr run   babel  <nt> <tag>*  <tree> <finder>   → <n> (<line> <func> <payload
 extr run   lingua <cfg>        <tree> <finder>
 extr strip <s> | splitlines <s> | splitws <s> | linguaprep <s>       (string helpers, checked on their own)
 
-<tree>   = <n> <node>*            <node> = <kind> <lineno> <code> <esc> <text> <nchildren> <node>*
+<tree>   = <n> <node>*            <node> = <kind> <lineno> <code> <esc> <escoff> <text> <nchildren> <node>*
 <finder> = <n> (<code> <nhits> (<line> <func> <payload> <nc> <comment>*)*)*
 ```
 A negative line number is written `n<abs>`.
@@ -32,16 +32,17 @@ def pNodes : Nat → Nat → List String → Option (List Node × List String)
   | 0, _ + 1, _ => none
   | fuel + 1, n + 1, toks =>
     match toks with
-    | k :: ln :: c :: e :: t :: nc :: rest => do
+    | k :: ln :: c :: e :: o :: t :: nc :: rest => do
       let k ← decKind k
       let ln ← ln.toNat?
       let c ← decStr c
       let e ← decStr e
+      let o ← o.toNat?
       let t ← decStr t
       let nc ← nc.toNat?
       let (ch, r1) ← pNodes fuel nc rest
       let (sibs, r2) ← pNodes fuel n r1
-      pure (Node.mk k ln c e t ch :: sibs, r2)
+      pure (Node.mk k ln c e o t ch :: sibs, r2)
     | _ => none
 
 def pStrs : Nat → List String → Option (List Str × List String)
